@@ -259,6 +259,12 @@ class MConcrete(ser.Concrete):
             r = vs[0]
             for v in vs[1:]:
                 if isinstance(r, sp.MatrixBase) != isinstance(v, sp.MatrixBase):
+                    # the number 0 is also the zero matrix (MatSymbolicAdd drops it)
+                    if not isinstance(v, sp.MatrixBase) and v == 0:
+                        continue
+                    if not isinstance(r, sp.MatrixBase) and r == 0:
+                        r = v
+                        continue
                     raise IllTyped("scalar + matrix")
                 r = r + v
             return r
